@@ -133,6 +133,35 @@ def mutate_types(rng, src):
     return TYPE_PRELUDE + out
 
 
+# bounded time: constructs nested d levels deep must be parsed in time polynomial in d; every program here is a
+# small VALID program (or a near miss) whose only difficulty is the depth of one construct
+DEEP_DECLS = (
+    "Die Funktion wert_text mit dem Parameter t vom Typ Text, gibt eine Zahl zurück, macht:\n\tGib 1 zurück.\nUnd kann so benutzt werden:\n\t\"wert <t>\"\n\n"
+    "Die Funktion wert_zahl mit dem Parameter z vom Typ Zahl, gibt eine Zahl zurück, macht:\n\tGib z zurück.\nUnd kann so benutzt werden:\n\t\"wert <z>\"\n\n"
+    "Die Funktion wert_komma mit dem Parameter k vom Typ Kommazahl, gibt eine Zahl zurück, macht:\n\tGib 2 zurück.\nUnd kann so benutzt werden:\n\t\"wert <k>\"\n\n"
+    "Die Funktion summe mit den Parametern a und b vom Typ Zahl und Zahl, gibt eine Zahl zurück, macht:\n\tGib a plus b zurück.\nUnd kann so benutzt werden:\n\t\"summe <a> <b>\",\n\t\"<a> und dazu <b>\"\n\n"
+    "Die generische Funktion selbst mit dem Parameter x vom Typ T, gibt ein T zurück, macht:\n\tGib x zurück.\nUnd kann so benutzt werden:\n\t\"selbst <x>\"\n\n"
+)
+
+
+def deep_programs(quick):
+    out = []
+    depths = [8, 16, 28, 40] if quick else [8, 16, 28, 40, 64, 90]
+    for d in depths:
+        out.append(("overload-call", d, DEEP_DECLS + "Die Zahl x ist " + "wert (" * d + "1" + ")" * d + ".\n"))
+        out.append(("overload-call-text", d, DEEP_DECLS + "Die Zahl x ist " + "wert (" * d + "\"a\"" + ")" * d + ".\n"))
+        out.append(("two-arg-call", min(d, 28), DEEP_DECLS + "Die Zahl x ist " + "summe (" * min(d, 28) + "1" + ") 2" * min(d, 28) + ".\n"))
+        out.append(("infix-alias", min(d, 28), DEEP_DECLS + "Die Zahl x ist " + "(" * min(d, 28) + "1" + " und dazu 2)" * min(d, 28) + ".\n"))
+        out.append(("generic-call", min(d, 28), DEEP_DECLS + "Die Zahl x ist " + "selbst (" * min(d, 28) + "1" + ")" * min(d, 28) + ".\n"))
+        out.append(("parens", d, "Die Zahl x ist " + "(" * d + "1" + ")" * d + ".\n"))
+        out.append(("minus-chain", d, "Die Zahl x ist " + "-(" * d + "1" + ")" * d + ".\n"))
+        out.append(("falls", d, "Die Zahl x ist " + "(1, falls wahr, ansonsten " * d + "0" + ")" * d + ".\n"))
+        out.append(("list-literal", min(d, 28), DEEP_DECLS + "Die Zahlen Liste l ist eine Liste, die aus " + "wert (" * min(d, 28) + "1" + ")" * min(d, 28) + ", 2 besteht.\n"))
+        out.append(("blocks", d, "".join("\t" * k + "Wenn wahr, dann:\n" for k in range(d)) + "\t" * d + "Die Zahl x ist 1.\n"))
+        out.append(("unclosed-call", d, DEEP_DECLS + "Die Zahl x ist " + "wert (" * d + "1.\n"))
+    return out
+
+
 def mutate_bytes(rng, src):
     b = bytearray(src.encode("utf-8"))
     if not b:
@@ -263,6 +292,8 @@ def main():
         for _ in range(rng.choice([1, 1, 1, 2, 3])):
             m = mutate_tokens(rng, m, rng.choice(sd)[1])
         inputs.append(("tok%d" % k, f if rng.random() < 0.5 else os.path.join(sc, "t.ddp"), m.encode("utf-8", "surrogatepass") if isinstance(m, str) else m, "token-mutant"))
+    for (what, d, src) in deep_programs(ck.quick):
+        inputs.append(("deep:%s:%d" % (what, d), os.path.join(sc, "d.ddp"), src.encode(), "deep-nesting"))
     for k, snip in enumerate(TYPE_SNIPPETS):
         inputs.append(("tsnip%d" % k, os.path.join(sc, "ts.ddp"), (TYPE_PRELUDE + snip).encode(), "type-snippet"))
     n_type = 400 if ck.quick else 6000
@@ -340,7 +371,7 @@ def main():
     ck.cov.update(dict(
         inputs=len(reqs), kinds=kinds, answered_with_diagnostics=n_diag, parsed_clean=n_clean, seeds=len(sd), exhaustive=False,
         explanation="PARTIAL: Coq proves termination of the parser's driving loops over an abstract declaration parser with a progress contract (Props/C03.v) and, in other properties, of the scanner (C13), the module loader (C10), literal unescaping (C19) and the renderer's indexing (C07). Crash-freedom of ~10k lines of recursive-descent Go (nil dereference, type assertion, stack exhaustion) cannot be stated in a total Gallina model; it is explored: %d inputs (token mutants, byte mutants incl. invalid UTF-8, hand-written near-miss snippets, import arrangements, unmutated seeds) parsed by the real frontend in sacrificial workers." % len(reqs),
-        rule="inputs = corpus + snippets + token-level mutants (delete/duplicate/swap/splice/truncate/insert), type-position mutants (type names written through aliases/definitions, `n Mal x` and cast/index/generic snippets over aliased list types) and byte-level mutants of %d seed files + import arrangements; non-trivial = answered with at least one diagnostic or parsed clean after mutation; distinct by input id" % len(sd)))
+        rule="inputs = corpus + snippets + token-level mutants (delete/duplicate/swap/splice/truncate/insert), deep-nesting programs (one construct nested 8..40 (90) levels: overloaded alias calls, infix aliases, generic calls, parentheses, falls, blocks; bounded time), type-position mutants (type names written through aliases/definitions, `n Mal x` and cast/index/generic snippets over aliased list types) and byte-level mutants of %d seed files + import arrangements; non-trivial = answered with at least one diagnostic or parsed clean after mutation; distinct by input id" % len(sd)))
     ck.sample(dict(kind="snippet", source=SNIPPETS[0]))
     ck.sample(dict(kind="imports", arrangement="cycle of length 3"))
     ck.finish()
